@@ -158,7 +158,7 @@ DB = {b"keyword": [b"\x01" * 8, b"\x05" * 8], b"other": [b"\x07" * 8]}
 STEPS = ["create", "key", "encrypt", "upload_config", "upload_edb"]
 
 
-async def client_step(env, sid, step, cfg):
+async def client_step(env, sid, step, cfg, timeout=8):
     """one workflow step with a client object freshly loaded from disk; returns (sid, error or None)"""
     csvc = env["csvc"]
     svc = csvc.Service(sid or "")
@@ -173,7 +173,7 @@ async def client_step(env, sid, step, cfg):
         if step in ("upload_config", "upload_edb"):
             h = svc.handle_upload_config if step == "upload_config" else svc.handle_upload_encrypted_database
             try:
-                await asyncio.wait_for(h(wait=True, wait_callback_func=lambda fut: None), 8)
+                await asyncio.wait_for(h(wait=True, wait_callback_func=lambda fut: None), timeout)
             finally:
                 await svc.close_service()
             return sid, None
@@ -329,6 +329,54 @@ async def client_lab(env, fx, res, viol):
     return table
 
 
+async def e2e_server_lab(env, fx, res, viol):
+    """the REAL client against the real server over a websocket; the SERVER dies before / after every file-system mutation
+    it performs while it handles the client's configuration or index upload (every later mutation of the dead process fails
+    too, so its connection clean-up writes nothing); the server is restarted on the same directory and the real client
+    carries on from its own persisted flags: it must be able to finish the workflow and search."""
+    import crashlab
+    import frontend_env as fe
+    sfm = env["sfm"]
+    cfg = dict(fx.c[1]); cfg.pop("salt", None)
+    async with fe.Server() as srv:
+        ip = crashlab.Interposer(sfm, os.path.join(env["home"], ".sse")).install()
+        try:
+            for target in ("upload_config", "upload_edb"):
+                async def prefix():
+                    sid = None
+                    for st in STEPS[:STEPS.index(target)]:
+                        ip.reset(None)
+                        sid, err = await client_step(env, sid, st, cfg)
+                    return sid
+                sid = await prefix()
+                ip.reset(None)
+                await client_step(env, sid, target, cfg)
+                await srvproto_wait(env)
+                n = len([o for o in ip.log])
+                for k in range(n + 1):
+                    sid = await prefix()
+                    await srvproto_wait(env)
+                    ip.reset(k)
+                    _, err = await client_step(env, sid, target, cfg, timeout=2.5)
+                    await asyncio.sleep(0.05)
+                    crashed = ip.crashed
+                    # restart: the dead process's registry is gone, the disk stays
+                    await srvproto_wait(env)
+                    fe.new_manager()
+                    ip.reset(None)
+                    log = []
+                    verdict, detail = await client_workflow_from(env, sid, cfg, log)
+                    point = f"real client, server killed before its mutation {k}/{n} while handling {target}"
+                    res.evaluations += 1
+                    res.count("e2e-server:" + verdict)
+                    res.extra.setdefault("e2e_server_points", []).append({"point": point, "killed": crashed, "outcome": verdict, "detail": detail[:120]})
+                    if verdict != "ok":
+                        viol(f"e2e-server:{target}:k={k}:{verdict}", f"{point}: {verdict} ({detail[:140]})",
+                             {"component": "server (real client)", "handler": target, "k": k})
+        finally:
+            ip.uninstall()
+
+
 def run_labs(ctx, res):
     import frontend_env as fe
     import srvproto
@@ -343,6 +391,7 @@ def run_labs(ctx, res):
         async def main():
             t1 = await server_lab(env, fx, res, viol)
             t2 = await client_lab(env, fx, res, viol)
+            await e2e_server_lab(env, fx, res, viol)
             return t1 + t2
         return asyncio.run(main())
     finally:
